@@ -1,4 +1,7 @@
 import Dashu.Proofs.Conv.Ratio
+import Dashu.Proofs.Conv.FloatTo
+import Dashu.Proofs.Conv.Fast
+import Dashu.Proofs.Float.FBigOps
 /-
   C06 — Conversions are lossless or refused; lossy ones are correctly rounded and say so.
 
@@ -11,7 +14,7 @@ import Dashu.Proofs.Conv.Ratio
   appear in counterexample theorems, which record why the repairs were needed.
 -/
 namespace Dashu.Props.C06
-open Dashu.Model Dashu.Model.Conv
+open Dashu.Model Dashu.Model.Conv Dashu.Model.Float Dashu.Props.GenRound
 
 /-! ### What the specification means -/
 
@@ -262,5 +265,220 @@ theorem rbig_to_f64_asis_counterexample :
     ratToFloatAsIs rat64 (encodeFixed f64Fixed) 3 (2 ^ 1076) = .ok (0, .neg) ∧
     ratToFloatFixed rat64 (encodeFixed f64Fixed) 3 (2 ^ 1076) = .ok (1, .pos) ∧
     ieeeRoundRat .binary64 .halfEven 3 (2 ^ 1076) = (1, .pos) := by decide +kernel
+
+/-! ## Round 2 — exactness-checked conversions between RBig, FBig, integers and primitive floats -/
+
+/-- **`TryFrom<RBig> for IBig`** (rational in lowest terms): `Ok` exactly when the value is an integer,
+    and then that integer; otherwise LossOfPrecision -/
+theorem rbig_try_to_ibig_iff (num : Int) (den : Nat) (hden : den ≠ 0) (hco : Nat.Coprime num.natAbs den) :
+    ratTryToIBig num den = if (den : Int) ∣ num then .ok (num / den) else .error .lossOfPrecision :=
+  ratTryToIBig_spec num den hden hco
+
+/-- **`TryFrom<RBig> for UBig`** (current tree, commit 9939d48) -/
+theorem rbig_try_to_ubig_iff (num : Int) (den : Nat) (hden : den ≠ 0) (hco : Nat.Coprime num.natAbs den) :
+    ratTryToUBig num den =
+      if num < 0 then .error .outOfBounds
+      else if (den : Int) ∣ num then .ok (num / den).toNat else .error .lossOfPrecision :=
+  ratTryToUBig_spec num den hden hco
+
+/-- **`TryFrom<RBig> for uN/iN`**: an integer the type holds, or refused with the right kind -/
+theorem rbig_try_to_prim_iff (lo hi : Int) (num : Int) (den : Nat) (hden : den ≠ 0)
+    (hco : Nat.Coprime num.natAbs den) :
+    ratTryToPrim lo hi num den =
+      if (den : Int) ∣ num then intoRangeSpec lo hi (num / den) else .error .lossOfPrecision :=
+  ratTryToPrim_spec lo hi num den hden hco
+
+/-- **`RBig::to_int`**: truncation toward zero; `Exact` iff the value is an integer; the reported
+    fraction is exactly the rest (`num = trunc·den + fract_num`, same denominator) -/
+theorem rbig_to_int_truthful (num : Int) (den : Nat) (hden : 0 < den) :
+    IsTowardZero num den (ratToInt num den).1 ∧
+    ((ratToInt num den).2 = none ↔ (den : Int) ∣ num) ∧
+    (∀ fn fd, (ratToInt num den).2 = some (fn, fd) → fd = den ∧ num = (ratToInt num den).1 * den + fn) :=
+  ratToInt_spec num den hden
+
+/-- **`RBig::try_from(f32/f64)`** is exact (`man·2^exp`), NaN/±∞ refused -/
+theorem rbig_try_from_float_exact (d : DecConsts) (bits : Nat) (n : Int) (dn : Nat)
+    (h : ratFromFloat d bits = .ok (n, dn)) :
+    ∃ man exp, decode d bits = .ok (man, exp) ∧ 0 < dn ∧ (n : ℚ) / (dn : ℚ) = (man : ℚ) * bpowQ 2 exp :=
+  ratFromFloat_exact d bits n dn h
+
+theorem rbig_try_from_float_refuses (d : DecConsts) (bits : Nat) (c : FpCategory)
+    (h : decode d bits = .error c) : ratFromFloat d bits = .error .outOfBounds :=
+  ratFromFloat_refuses d bits c h
+
+/-- **`FBig::try_from(f32/f64)`**: exact value, normalised, precision = bit length of the mantissa -/
+theorem fbig_try_from_float_exact (d : DecConsts) (bits : Nat) (r : FRepr) (p : Nat)
+    (h : fbigFromFloat d bits = .ok (.finite r p)) :
+    ∃ man exp, decode d bits = .ok (man, exp) ∧ r.toRat 2 = (man : ℚ) * bpowQ 2 exp ∧
+      Normalized 2 r ∧ p = bitLen man.natAbs :=
+  fbigFromFloat_exact d bits r p h
+
+/-- **`TryFrom<FBig> for IBig`** (any base ≥ 2, normalised float): `Ok v` with the value `= v`, or
+    LossOfPrecision and the value is no integer; infinities are out of bounds -/
+theorem fbig_try_to_ibig_iff (B : Nat) (hB : 2 ≤ B) (r : FRepr) (hn : Normalized B r) :
+    (FRepr.isInfinite r = true ∧ fbigTryToIBig B r = .error .outOfBounds) ∨
+    (FRepr.isInfinite r = false ∧
+      ((∃ v : Int, fbigTryToIBig B r = .ok v ∧ r.toRat B = (v : ℚ)) ∨
+       (fbigTryToIBig B r = .error .lossOfPrecision ∧ ∀ v : Int, r.toRat B ≠ (v : ℚ)))) :=
+  fbigTryToIBig_spec B hB r hn
+
+/-- **`TryFrom<FBig> for UBig`**: succeeds only through the `IBig` conversion with a non-negative value -/
+theorem fbig_try_to_ubig_sound (B : Nat) (r : FRepr) (v : Nat) (h : fbigTryToUBig B r = .ok v) :
+    fbigTryToIBig B r = .ok (v : Int) :=
+  fbigTryToUBig_spec B r v h
+
+/-- **`TryFrom<FBig> for uN / iN`** with any sound `log2_bounds` estimate: `Ok v` iff the value is the
+    integer `v` and the type holds it -/
+theorem fbig_try_to_prim_iff (B : Nat) (hB : 2 ≤ B) (unsigned : Bool) (lo hi : Int) (big : Bool) (r : FRepr)
+    (hn : Normalized B r) (hlo : unsigned = true → lo = 0)
+    (hbig : big = true → ∀ v : Int, r.toRat B = (v : ℚ) → ¬ (lo ≤ v ∧ v ≤ hi)) (v : Int) :
+    fbigTryToPrim B unsigned lo hi big r = .ok v ↔
+      (FRepr.isInfinite r = false ∧ r.toRat B = (v : ℚ) ∧ lo ≤ v ∧ v ≤ hi) :=
+  fbigTryToPrim_ok_iff B hB unsigned lo hi big r hn hlo hbig v
+
+/-- **`TryFrom<FBig> for RBig`**: exact -/
+theorem fbig_to_rbig_exact (B : Nat) (hB : 2 ≤ B) (r : FRepr) (n : Int) (d : Nat)
+    (h : fbigToRat B r = .ok (n, d)) : 0 < d ∧ r.toRat B = (n : ℚ) / (d : ℚ) :=
+  fbigToRat_exact B hB r n d h
+
+/-- **`TryFrom<RBig> for f32`** (current tree, commit 90f3ba2): a success is exact -/
+theorem rbig_try_to_f32_sound (num : Int) (den : Nat) (bits : Nat)
+    (h : ratTryToFloat f32Fixed (-149) 128 num den = .ok (.ok bits)) :
+    ieeeRoundRat .binary32 .halfEven num den = (bits, .exact) :=
+  ratTryToFloat_sound f32Fixed .binary32 f32Fixed_compatible (-149) 128 num den bits h
+
+theorem rbig_try_to_f64_sound (num : Int) (den : Nat) (bits : Nat)
+    (h : ratTryToFloat f64Fixed (-1074) 1024 num den = .ok (.ok bits)) :
+    ieeeRoundRat .binary64 .halfEven num den = (bits, .exact) :=
+  ratTryToFloat_sound f64Fixed .binary64 f64Fixed_compatible (-1074) 1024 num den bits h
+
+/-- **`FBig::to_int`** (mode of the type, via builder-float's `fToInt`): the integer the mode names for
+    `signif / B^(-exp)`, always flagged inexact when fractional digits exist; **`Repr::to_int`** truncates -/
+theorem fbig_to_int_follows_mode (B : Nat) (hB : 2 ≤ B) (c : Coarse) (hc : CoarseSound c) (dub : Int → Nat)
+    (hdub : DubSound B dub) (x : FBigM) (he : x.repr.exp < 0) (m : Float.Mode) :
+    ModeSpec m x.repr.signif (pointUnit B x.repr) (fToInt B m c dub x).1 ∧ (fToInt B m c dub x).2 ≠ none :=
+  fToInt_spec B hB c hc dub hdub x he m
+
+theorem repr_to_int_truncates (B : Nat) (hB : 2 ≤ B) (dub : Int → Nat) (hdub : DubSound B dub) (r : FRepr)
+    (he : r.exp < 0) :
+    IsTowardZero r.signif (pointUnit B r) (reprToInt B dub r).1 ∧ (reprToInt B dub r).2 = some .NoOp :=
+  reprToInt_spec B hB dub hdub r he
+
+/-! ## Round 2 — `FBig/Repr::to_f32/to_f64`, base 2: normal form and exact failing regions -/
+
+/-- **double rounding lemma**: rounding to nearest-even twice (`k1` bits, then `k2 ≥ 1` more) equals the
+    single rounding exactly outside `DoubleRoundBad` (first rounding inexact, lands on a midpoint of the
+    second grid, tie rule to the wrong side) -/
+theorem double_rounding_lemma (a k1 k2 : Nat) (hk2 : 1 ≤ k2) :
+    rneDiv (rneDiv a (2 ^ k1)) (2 ^ k2) = rneDiv a (2 ^ (k1 + k2)) ↔ ¬ DoubleRoundBad a k1 k2 :=
+  double_rne a k1 k2 hk2
+
+/-- the first rounding (`Context::repr_round_ref` in base 2, all six modes, through the regenerated
+    `round_low_part` tables) as a rounding of the magnitude -/
+theorem fbig_first_rounding (m : Float.Mode) (c : Coarse) (hc : CoarseSound c) (p : Nat) (hp : 1 ≤ p) (s e : Int)
+    (hodd : s % 2 = 1) :
+    reprRound 2 m c p ⟨s, e⟩ =
+      if bitLen s.natAbs ≤ p then (⟨s, e⟩, none)
+      else
+        let k := bitLen s.natAbs - p
+        let rm := roundMagMode (convMode m) (decide (s < 0)) s.natAbs (2 ^ k)
+        (FRepr.new 2 ((if s < 0 then -1 else 1) * (rm.1 : Int)) (e + (k : Int)), some (adjOfUp rm.2 (decide (s < 0)))) :=
+  reprRound_two m c hc p hp s e hodd
+
+/-- **normal form of `FBig::<R,2>::to_f32` (every mode R), `FBig::to_f64`, `Repr::to_f32/to_f64`**: the bits are
+    the IEEE round-to-nearest-even of the value FIRST rounded to 24/53 bits in the mode of the type -/
+theorem fbig_to_f64_normal_form (m : Float.Mode) (c : Coarse) (hc : CoarseSound c) (s e : Int) (hodd : s % 2 = 1) :
+    fbigToFloat into64 m c ⟨s, e⟩ =
+      .ok ((if s < 0 then Ieee.binary64.signBit else 0) +
+            (ieeeRoundMag .binary64 (firstRound 53 m (decide (s < 0)) s.natAbs e).1
+              (firstRound 53 m (decide (s < 0)) s.natAbs e).2.1).1,
+           andThenFlag (firstRound 53 m (decide (s < 0)) s.natAbs e).2.2
+             (intoFlag into64 (decide (s < 0)) (reachedRepr .binary64 m s e).exp
+               (ieeeRoundMag .binary64 (firstRound 53 m (decide (s < 0)) s.natAbs e).1
+                 (firstRound 53 m (decide (s < 0)) s.natAbs e).2.1).2)) :=
+  fbigToFloat_normal into64 into64_compat m c hc s e hodd
+
+theorem fbig_to_f32_normal_form (m : Float.Mode) (c : Coarse) (hc : CoarseSound c) (s e : Int) (hodd : s % 2 = 1) :
+    fbigToFloat into32 m c ⟨s, e⟩ =
+      .ok ((if s < 0 then Ieee.binary32.signBit else 0) +
+            (ieeeRoundMag .binary32 (firstRound 24 m (decide (s < 0)) s.natAbs e).1
+              (firstRound 24 m (decide (s < 0)) s.natAbs e).2.1).1,
+           andThenFlag (firstRound 24 m (decide (s < 0)) s.natAbs e).2.2
+             (intoFlag into32 (decide (s < 0)) (reachedRepr .binary32 m s e).exp
+               (ieeeRoundMag .binary32 (firstRound 24 m (decide (s < 0)) s.natAbs e).1
+                 (firstRound 24 m (decide (s < 0)) s.natAbs e).2.1).2)) :=
+  fbigToFloat_normal into32 into32_compat m c hc s e hodd
+
+/-- **value**: `FBig::to_f64` (every FBig of base 2; the conversion always rounds half-even) returns the
+    correctly rounded double EXACTLY outside `ToFloatBad` = {more than 53 bits ∧ subnormal result ∧
+    `DoubleRoundBad`} — the closed form of the recorded finding "subnormal double rounding" -/
+theorem fbig_to_f64_value_iff (c : Coarse) (hc : CoarseSound c) (s e : Int) (hodd : s % 2 = 1)
+    (bits : Nat) (fl : Option Float.Rounding) (h : fbigToFloat into64 .halfEven c ⟨s, e⟩ = .ok (bits, fl)) :
+    bits = (ieeeRound .binary64 s e).1 ↔ ¬ ToFloatBad .binary64 s.natAbs e :=
+  fbigToFloat_value_iff into64 into64_compat c hc s e hodd bits fl h
+
+/-- the same for `Repr::<2>::to_f32` and `FBig<HalfEven, 2>::to_f32` -/
+theorem fbig_to_f32_value_iff (c : Coarse) (hc : CoarseSound c) (s e : Int) (hodd : s % 2 = 1)
+    (bits : Nat) (fl : Option Float.Rounding) (h : fbigToFloat into32 .halfEven c ⟨s, e⟩ = .ok (bits, fl)) :
+    bits = (ieeeRound .binary32 s e).1 ↔ ¬ ToFloatBad .binary32 s.natAbs e :=
+  fbigToFloat_value_iff into32 into32_compat c hc s e hodd bits fl h
+
+/-- **flag**: where the value is right, the returned `Rounding` tells the truth EXACTLY outside
+    `ToFloatFlagBad` = {`encode` rounded the magnitude up ∧ no overflow exit} — the closed form of the
+    recorded finding "flag replaced by NoOp" -/
+theorem fbig_to_f64_flag_iff (c : Coarse) (hc : CoarseSound c) (s e : Int) (hodd : s % 2 = 1)
+    (bits : Nat) (fl : Option Float.Rounding) (h : fbigToFloat into64 .halfEven c ⟨s, e⟩ = .ok (bits, fl))
+    (hgood : ¬ ToFloatBad .binary64 s.natAbs e) :
+    fl = adjOfMag (decide (s < 0)) (ieeeRoundMag .binary64 s.natAbs e).2 ↔ ¬ ToFloatFlagBad into64 .halfEven s e :=
+  fbigToFloat_flag_iff into64 into64_compat c hc s e hodd bits fl h hgood
+
+theorem fbig_to_f32_flag_iff (c : Coarse) (hc : CoarseSound c) (s e : Int) (hodd : s % 2 = 1)
+    (bits : Nat) (fl : Option Float.Rounding) (h : fbigToFloat into32 .halfEven c ⟨s, e⟩ = .ok (bits, fl))
+    (hgood : ¬ ToFloatBad .binary32 s.natAbs e) :
+    fl = adjOfMag (decide (s < 0)) (ieeeRoundMag .binary32 s.natAbs e).2 ↔ ¬ ToFloatFlagBad into32 .halfEven s e :=
+  fbigToFloat_flag_iff into32 into32_compat c hc s e hodd bits fl h hgood
+
+/-- both regions are inhabited (kernel-checked): `(2^54+1)·2^-1129` converts to 0 instead of `2^-1074`;
+    `3·2^1023` overflows inside `encode` and is reported `Inexact(∞, NoOp)` -/
+theorem fbig_to_f64_bad_regions_inhabited :
+    ToFloatBad .binary64 (2 ^ 54 + 1) (-1129) ∧
+    fbigToFloat into64 .halfEven coarseNone ⟨2 ^ 54 + 1, -1129⟩ = .ok (0, some .NoOp) ∧
+    ieeeRound .binary64 (2 ^ 54 + 1) (-1129) = (1, .pos) ∧
+    ¬ ToFloatBad .binary64 3 1023 ∧ ToFloatFlagBad into64 .halfEven 3 1023 ∧
+    fbigToFloat into64 .halfEven coarseNone ⟨3, 1023⟩ = .ok (0x7ff0000000000000, some .NoOp) := by
+  decide +kernel
+
+/-! ## Round 2 — `RBig::to_f32_fast / to_f64_fast`: the bounded error -/
+
+/-- outside its two early exits `to_f64_fast` returns the correctly rounded (`encode_correct`) float of
+    `±m'·2^x`, where `m'` is the rounded quotient of the numerator truncated to 106 and the denominator
+    truncated to 53 bits (`to_f32_fast`: 48 and 24) -/
+theorem rbig_to_f64_fast_normal_form (num : Int) (den : Nat) (hnum : num ≠ 0) (hden : den ≠ 0)
+    (h1 : ¬ (fastExp 53 num.natAbs den ≥ 1024)) (h2 : ¬ (fastExp 53 num.natAbs den < -1074 - 53 - 1)) :
+    ratToFloatFast rat64 (encodeFixed f64Fixed) num den =
+      .ok (ieeeRound .binary64
+        (if decide (num < 0) then -((rneDiv (fastNum 53 num.natAbs (decide (num < 0))) (fastDen 53 den) : Nat) : Int)
+         else ((rneDiv (fastNum 53 num.natAbs (decide (num < 0))) (fastDen 53 den) : Nat) : Int))
+        (fastExp 53 num.natAbs den)).1 :=
+  ratToFloatFast_main rat64 f64Fixed rat64_compat num den hnum hden h1 h2
+
+theorem rbig_to_f32_fast_normal_form (num : Int) (den : Nat) (hnum : num ≠ 0) (hden : den ≠ 0)
+    (h1 : ¬ (fastExp 24 num.natAbs den ≥ 128)) (h2 : ¬ (fastExp 24 num.natAbs den < -149 - 25 - 0)) :
+    ratToFloatFast rat32 (encodeFixed f32Fixed) num den =
+      .ok (ieeeRound .binary32
+        (if decide (num < 0) then -((rneDiv (fastNum 24 num.natAbs (decide (num < 0))) (fastDen 24 den) : Nat) : Int)
+         else ((rneDiv (fastNum 24 num.natAbs (decide (num < 0))) (fastDen 24 den) : Nat) : Int))
+        (fastExp 24 num.natAbs den)).1 :=
+  ratToFloatFast_main rat32 f32Fixed rat32_compat num den hnum hden h1 h2
+
+/-- **bounded error**: that rounded quotient is within 4.5 units in its own last place of the exact
+    quotient `|num|/den` scaled to the same exponent (every precision `p ≥ 1`, every operand size).  With
+    `p` or `p+1` bits in `m'` this is < 2.5 resp. 2.25 ulps of the result before the (correct) rounding in
+    `encode`, i.e. the result is at most 3 units away from the correctly rounded float in the normal range —
+    not "one bit" as the doc comment says. -/
+theorem rbig_to_float_fast_quotient_bound (p a den : Nat) (neg : Bool) (hp : 1 ≤ p) (ha : a ≠ 0) (hd : den ≠ 0) :
+    |((rneDiv (fastNum p a neg) (fastDen p den) : Nat) : ℚ) -
+      ((a : ℚ) / (den : ℚ)) / (2 : ℚ) ^ (fastExp p a den)| < 9 / 2 :=
+  fast_quotient_bound p a den neg hp ha hd
 
 end Dashu.Props.C06
